@@ -47,6 +47,9 @@ func symbolCommands(sym string, i int) [][]string {
 		return [][]string{{"SET", "k2", "b" + p + binaryMarker}}
 	case "we":
 		return [][]string{{"HSET", "h1", "", "e" + p}}
+	case "pr":
+		// the tool's own sync-delay probe (input.syncDelayTestKey): SET <key> <host>_<nanoseconds>
+		return [][]string{{"SET", probeKey, "host" + p + "_1700000000" + p + "00000000"}}
 	case "wx":
 		return [][]string{{"SET", "k1", "x" + p, "EX", "100"}}
 	case "d":
